@@ -146,6 +146,16 @@ pub fn distance<IntT: for<'a> UInt<'a>>(
     let mask_ambig = false;
     let ignore_const_gaps = false;
     let filter_ambig_as_missing = false;
+    // Split k-mers below the frequency threshold are ignored: remove them first,
+    // so they are not counted with the constant sites (matches for every pair)
+    apply_filters(
+        ska_array,
+        min_freq,
+        filter_ambig_as_missing,
+        &FilterType::NoFilter,
+        mask_ambig,
+        ignore_const_gaps,
+    );
     let constant = apply_filters(
         ska_array,
         min_freq,
